@@ -209,6 +209,9 @@ def handle (S : Session) (toks : List String) : Session × String :=
   | "CHECK" :: rest => match parseDump n rest with
     | some d => (S, verdict (judgeStrict S.ctx d))
     | none => bad
+  | "WEAK" :: rest => match parseDump n rest with
+    | some d => (S, verdict (judgeWeak S.ctx d))
+    | none => bad
   | "CHECKND" :: rest => match parseDump n rest with
     | some d => (S, verdict (judgeStrict S.ctx d false))
     | none => bad
